@@ -180,7 +180,14 @@ func genTCPConn(r *Rng, cfg []cfgKey, focus string) tcpConnSpec {
 			sp.TOut[0] = 20000
 		}
 	}
-	if sp.Kind != "honest" || sp.Corrupt != 0 || !sp.ConnectOK || sp.TFinFirst || sp.Fin || sp.AKind == 9 || (sp.AKind >= 20 && sp.AKind < 30 && sp.AKind != 21) || (sp.Validate && !tcpKindPublic(sp.AKind)) || sp.C < 0 {
+	if sp.Kind == "honest" && sp.Corrupt == 0 && sp.ConnectOK && !sp.TFinFirst && !sp.TReset && sp.SlowStartMs == 0 && sp.AKind <= 3 && !sp.Validate && sel >= probeW+postW+dialW && (focus == "C15" && r.Chance(10) || r.Chance(3)) {
+		// the client aborts (RST) once everything has been relayed: the upload direction ends with an error
+		sp.CReset, sp.Fin, sp.TFirst = true, false, false
+		if sp.TOut[0] > 20000 {
+			sp.TOut[0] = 20000
+		}
+	}
+	if sp.Kind != "honest" || sp.Corrupt != 0 || !sp.ConnectOK || sp.TFinFirst || sp.Fin || sp.CReset || sp.AKind == 9 || (sp.AKind >= 20 && sp.AKind < 30 && sp.AKind != 21) || (sp.Validate && !tcpKindPublic(sp.AKind)) || sp.C < 0 {
 		sp.TLate = [2]int{}
 	}
 	return sp
@@ -458,6 +465,23 @@ func tcpMonitors(ctx *Ctx, prop string, cs *tcpCaseSpec, i int, sp *tcpConnSpec,
 		if !bytes.Equal(ob.TargetGot, payload) {
 			ctx.Monitor("C02/upstream-not-intact", fmt.Sprintf("target received %d bytes (cksum %d), client sent %d (cksum %d)", len(ob.TargetGot), cksum(ob.TargetGot), len(payload), cksum(payload)), rep)
 		}
+		// end-of-stream propagates independently: the target has sent its output and half-closed, the
+		// client (which has not finished sending) must see that end-of-stream; a timing verdict,
+		// confirmed on two more runs of the same connection
+		if sp.TFinFirst && ob.EOFHeld {
+			again := 0
+			for k := 0; k < 2; k++ {
+				one := tcpCaseSpec{Cfg: cs.Cfg, Cap: cs.Cap, Conns: []tcpConnSpec{*sp}}
+				if o2 := runTCPCase(&one); len(o2) == 1 && o2[0].EOFHeld {
+					again++
+				}
+			}
+			if again == 2 {
+				ctx.Monitor("C02/target-eof-held-back", "the target sent its output and half-closed while the client was still to upload; the client had not seen end-of-stream 1.5 s later (it arrived only after the client finished); confirmed on two more runs", rep)
+			} else {
+				ctx.Count("target-eof-delay-not-confirmed")
+			}
+		}
 		// the two directions are independent: what the target says reaches the client without
 		// waiting for the client to send or close (the harness' client half-closes only after 1.1 s)
 		stalled := func(o *tcpObs) bool { return o.FirstDownMs < 0 || o.FirstDownMs > 900 }
@@ -484,10 +508,13 @@ func tcpMonitors(ctx *Ctx, prop string, cs *tcpCaseSpec, i int, sp *tcpConnSpec,
 		}
 	}
 	validKind := sp.AKind <= 3 || (sp.AKind >= 4 && sp.AKind <= 15 && sp.AKind != 9) || sp.AKind == 21 || (sp.AKind >= 30 && sp.AKind <= 33)
+	if sp.CReset && authenticated && ob.Status != "ERR_RELAY_CLIENT" {
+		ctx.Monitor("C15/status-hides-client-reset", fmt.Sprintf("the client aborted its connection with a reset once everything had been relayed; the connection was reported closed with %s", ob.Status), rep)
+	}
 	if sp.TReset && authenticated && ob.Status != "ERR_RELAY_TARGET" {
 		ctx.Monitor("C15/status-hides-target-error", fmt.Sprintf("the target reset its connection after replying (the upload had completed); the connection was reported closed with %s", ob.Status), rep)
 	}
-	if sp.Kind == "honest" && sp.Corrupt == 0 && validKind && (!sp.Validate || tcpKindPublic(sp.AKind)) && sp.ConnectOK && !sp.TReset {
+	if sp.Kind == "honest" && sp.Corrupt == 0 && validKind && (!sp.Validate || tcpKindPublic(sp.AKind)) && sp.ConnectOK && !sp.TReset && !sp.CReset {
 		inCfg := false
 		for _, k := range cs.Cfg {
 			if k.C == sp.C && k.S == sp.S {
